@@ -92,6 +92,11 @@ def Op.holderNotNamed (h : Addr) : Op → Bool
   | .qadd to _ _ p => p ≠ h && to ≠ h
   | op => op.holderNeverSigns h
 
+/-- the operations that, per the property, "never move or lose funds" -/
+def Op.movesNoFunds : Op → Bool
+  | .optIn _ | .optOut _ | .auto _ _ | .decline _ _ _ => true
+  | _ => false
+
 /-- coins of the record stored under a key (`[]` when there is none) -/
 def coinsAt (s : State) (to : Addr) (sfx : Suffix) : Coins :=
   match kvGet s.recs (to, sfx) with
